@@ -12,8 +12,16 @@ import (
 func verifTagged(i int) []byte {
 	b := verifByte("payload")
 	verifAssume(b != '\n' && (b < 'A' || b > 'Z'))
+	if verifLongLines {
+		// longer than a whole spool segment file (12 bytes in these scenarios): the disk queue stores such a record
+		// in a segment of its own
+		return append([]byte{byte('A' + i), b}, []byte("xxxxxxxxxxxxx")...)
+	}
 	return []byte{byte('A' + i), b}
 }
+
+// verifLongLines: lines handed off from now on are longer than the spool's segment size
+var verifLongLines = false
 
 func verifHandOff(d *Destination, lines *[][]byte, n int) {
 	for i := 0; i < n; i++ {
@@ -91,7 +99,9 @@ func VerifC07Outage() {
 			verifEndpointClose(k)
 		}
 		verifSettle()
+		verifLongLines = verifParam("long-lines-during-outage") == "1"
 		verifHandOff(d, &lines, verifChoice("n-during-outage", 1+maxl))
+		verifLongLines = false
 		// recovery
 		verifEndpointUp(true)
 		verifReconnect(d)
